@@ -34,10 +34,17 @@ POS_TOL = 1e-6
 ORDER_TOL = 1e-9
 AMPLE = 0.49
 
+# Finding (see the final report / corpus/C29/known-interstitial-nomap.json): Interstitial.makesupercells appends a mapping only when
+# an equivalent state is found and records no placeholder otherwise, so in a supercell that loses the crystal operation connecting an
+# endpoint to its class representative the transmapping tuple has fewer than two entries (a mapping of the final endpoint lands in
+# the slot of the initial one).  While the flag is True the generator does not draw (interstitial calculator, supercell) pairs in
+# exactly that region (su.nomap_region, computed from the crystal's point operations that survive in the supercell).
+EXCLUDE_INT_NOMAP = True
+
 
 @st.composite
 def cases(draw):
-    return draw(su.setups())
+    return draw(su.setups(exclude_nomap=EXCLUDE_INT_NOMAP))
 
 
 # ------------------------------------------------------------------------------------------------
@@ -356,21 +363,14 @@ def check_super(case, crys, sl, jn, calc, M):
             else:
                 classes.append("jump_not_unique_min_image")
             ngood += 1
-        # recorded mappings
-        if kind == "interstitial":
-            if len(tm) != 2 or any(e is None for e in tm):
-                # the interstitial calculator records no placeholder: entries cannot be attributed to an endpoint
-                require(not (sym and not degenerate), lambda: "transition %r in supercell %s: %d mappings recorded for 2 endpoints although the supercell keeps the full symmetry" % (tag, M, len(tm)))
-                classes.append("interstitial_mapping_missing(symmetry broken)")
-                nnone += 1
-                continue
-        else:
-            require(len(tm) == 2, lambda: "transition %r: transmapping has %d entries" % (tag, len(tm)))
+        # recorded mappings: one slot per endpoint (None = no equivalent tagged state)
+        require(len(tm) == 2, lambda: "transition %r in supercell %s: transmapping has %d entries for the two endpoints, so entries cannot be attributed to an endpoint "
+                "(consumers read slot 0 as the initial and slot 1 as the final endpoint)" % (tag, M, len(tm)))
         for which, (entry, epl) in enumerate(zip(tm, (pl0, pl1))):
             if entry is None:
                 nnone += 1
                 if sym and not degenerate:
-                    require(t == "omega1", lambda: "transition %r in supercell %s: endpoint %d is a tagged state but no mapping is recorded" % (tag, M, which))
+                    require(kind == "vacancy" and t == "omega1", lambda: "transition %r in supercell %s: endpoint %d is a tagged state but no mapping is recorded" % (tag, M, which))
                 continue
             check_mapping(lay, sd, tag, which, entry, epl, plcache)
             if not degenerate:
@@ -409,25 +409,38 @@ def check(case):
             "sample": {"crystal": case["recipe"]["name"], "basis": case["recipe"]["basis"], "chem": chem, "kind": kind, "shell": case["k"], "supercells": summary}}
 
 
+excluded = [0]
+
+
 def catalogue_cases(quick):
+    from ..strategies import networks as nw
     out = []
-    for kind, names in (("vacancy", ["FCC", "BCC", "HCP", "B2", "diamond", "omega", "tetP2"]), ("interstitial", ["HCPoct", "FCCoct", "B2", "NbO"])):
+    excluded[0] = 0
+    vac = ["FCC", "HCP", "B2", "omega"] if quick else ["FCC", "BCC", "HCP", "B2", "diamond", "omega", "tetP2", "SC", "mono2"]
+    for kind, names in (("vacancy", vac), ("interstitial", ["HCPoct", "FCCoct", "NbO"] if quick else ["HCPoct", "FCCoct", "B2", "NbO", "tetP2"])):
         for name in names:
             rec = cs.CATALOGUE[name]
             crys = cs.build(rec)
             pool = su.supers_for(crys.N, maxsites=130 if quick else 260, maxcells=64 if quick else 125)
             k = 1
             if kind == "vacancy":
-                from ..strategies import networks as nw
                 k = nw.smallest_percolating(crys, 0) or 1
-            for n in range(0, len(pool), 3):
-                out.append({"recipe": rec, "chem": 0, "kind": kind, "k": k, "supers": pool[n:n + 3]})
+            sl, jn, _ = nw.network(crys, 0, k)
+            if kind == "interstitial" and EXCLUDE_INT_NOMAP:
+                keep = [M for M in pool if not su.nomap_region(crys, 0, sl, jn, M)]
+                excluded[0] += len(pool) - len(keep)
+                pool = keep
+            step = 3
+            for n in range(0, len(pool), step):
+                out.append({"recipe": rec, "chem": 0, "kind": kind, "k": k, "supers": pool[n:n + step]})
     return out
 
 
 def run(ctx):
     ctx.corpus(check)
     base = catalogue_cases(ctx.quick)
+    if EXCLUDE_INT_NOMAP and ctx.shard == 0:
+        ctx.exclude("interstitial-nomap (catalogue supercells dropped)", excluded[0])
     ctx.cases([c for i, c in enumerate(base) if ctx.mine(i)], check, label="catalogue")
     ctx.given(cases(), check, quick=120, thorough=3000)
 
